@@ -1,5 +1,8 @@
 (* C05 - statements end exactly at top-level semicolons; opaque regions never split.
    Only statements of theorems proved elsewhere + Print Assumptions. *)
+(* source pins: the functions of /repo the hand-written models in this file's cone mirror have the normalised AST they
+   were written from (tools/regen/gen_srcpins.py; a changed function breaks its Gen/Pin_*.v and this file with it) *)
+From SqlModel.Gen Require Pin_api_glue.
 From SqlModel.Gen Require LexPins.   (* the scan loop, is_keyword, consume and the class-level state of sqlparse/lexer.py have the pinned shape *)
 From SqlModel Require Import Base Str PyStr Re Lexer SplitDefs Splitter SplitFacts Level Level2.
 From SqlModel.Gen Require Import CaseTabs SplitTab.
